@@ -75,6 +75,7 @@ type Outcome struct {
 	RootMissing          bool
 	Err                  error // traversal error other than skipped links (selector/data mismatch, budget)
 	Panicked             bool
+	TooBig               bool
 	RespLoads            []Load // the loads the responder's own traversal performs, in order (RespHas = present)
 }
 
@@ -87,6 +88,9 @@ func Digest(n datamodel.Node) string {
 	h := sha256.Sum256(buf.Bytes())
 	return hex.EncodeToString(h[:])
 }
+
+// MaxLoads bounds the size of cases (link loads of the reference traversal).
+const MaxLoads = 4000
 
 // Has is a block lookup.
 type Has func(c cid.Cid) ([]byte, bool)
@@ -116,6 +120,12 @@ func TwoStore(root cid.Cid, selNode datamodel.Node, reqHas, respHas Has, budget 
 	lsys := cidlink.DefaultLinkSystem()
 	lsys.TrustedStorage = true
 	lsys.StorageReadOpener = func(lctx linking.LinkContext, lnk datamodel.Link) (io.Reader, error) {
+		if len(out.Loads) >= MaxLoads {
+			// shared sub-DAGs under an unbounded recursion can make a traversal exponentially long:
+			// such cases are not used (the generators draw another one)
+			out.TooBig = true
+			return nil, fmt.Errorf("reference traversal exceeds %d link loads", MaxLoads)
+		}
 		c := lnk.(cidlink.Link).Cid
 		p := lctx.LinkPath.String()
 		// reach(p): longest proper prefix of p that is a load path
